@@ -620,9 +620,13 @@ def gen_history(rng, rig: Rig, segs: list[bytes], close_after: bool, max_steps=4
             do("D" + fw.hexs(segs[i]))
             i += 1
             continue
-        if early_close and not closed and rig.deliverable() and rig.parser_open() and rng.random() < 0.05:
-            closed_early = i < len(segs) or rig.parser_open()
+        if early_close and not closed and i < len(segs) and rig.deliverable() and rig.parser_open() and rng.random() < 0.05:
+            closed_early = True
             do("X")
+            closed = True
+            continue
+        if i >= len(segs) and not closed and rig.deliverable() and rig.parser_open() and rng.random() < 0.3:
+            do("X")           # the peer sent everything and closes (its FIN is seen as soon as the transport reads)
             closed = True
             continue
         if rig.task is None:
@@ -695,6 +699,8 @@ def verdicts(case, summary, refst):
         elif oc == "stuck":
             out.append(("deadlock", "valid complete body: the consumer is blocked for ever (all bytes were handed to the protocol"
                         if summary.get("delivered_all") else "valid complete body: the consumer is blocked while the transport stays paused / undelivered"))
+        elif oc == "budget":
+            pass
         elif oc == "err:ConnClosed":
             out.append(("lost_at_close", f"valid complete body: RuntimeError('Connection closed.') after {len(rec)} of {len(ref)} bytes"))
         else:
@@ -913,7 +919,7 @@ def suite_handler(ctx, exe, n):
     try:
         for _ in range(n):
             mode = rng.choice([31, 15, 0])
-            nmem = rng.choice([1, 2, 3, 5, 40])
+            nmem = rng.choice([1, 2, 3, 5, 20])
             body = b"".join(toy_encode_member(gen_plain(rng, rng.choice(["empty", "short", "runs", "bomb"])), mode, rng) for _ in range(nmem))
             body, _tag = corrupt(rng, body)
             z = cu.ZLibDecompressor(encoding="gzip" if mode == 31 else "deflate", suppress_deflate_header=mode == 0)
@@ -921,7 +927,7 @@ def suite_handler(ctx, exe, n):
             rng.shuffle(pieces) if False else None
             calls, outs = [], []
             i = 0
-            while i < len(pieces) or (z.data_available and len(calls) < 400):
+            while (i < len(pieces) or z.data_available) and len(calls) < 150:
                 if i < len(pieces) and (not z.data_available or rng.random() < 0.5):
                     d = pieces[i]
                     i += 1
